@@ -225,6 +225,9 @@ func (s *Stream) readBuf() []byte {
 	return s.buf[s.cursor+remainNotNulCharNum:]
 }
 
+// as in bufio: a reader that keeps returning (0, nil) is reported instead of spinning
+const maxConsecutiveEmptyReads = 100
+
 func (s *Stream) read() bool {
 	if s.allRead {
 		return false
@@ -233,6 +236,15 @@ func (s *Stream) read() bool {
 	last := len(buf) - 1
 	buf[last] = nul
 	n, err := s.r.Read(buf[:last])
+	for i := 0; n == 0 && err == nil; i++ {
+		// a Read may deliver nothing without being at the end of the input
+		// (io.Reader): the scanners take "no new byte" for the end, so ask again
+		if i == maxConsecutiveEmptyReads {
+			err = io.ErrNoProgress
+			break
+		}
+		n, err = s.r.Read(buf[:last])
+	}
 	s.length += int64(n)
 	if n == last {
 		s.filledBuffer = true
